@@ -91,6 +91,7 @@ pub fn check(case: &Case) -> Verdict {
     let note = &case.note;
     for (what, f) in [
         ("new(amount, unit)", t.new_roundtrip),
+        ("new(amount, unit).clone()", t.clone_roundtrip),
         ("amount * unit", t.amt_mul_unit),
         ("unit * amount", t.unit_mul_amt),
     ] {
